@@ -264,6 +264,15 @@ def run_check(prop: str, tier: str, workers: int = 16, only_label: Optional[str]
     for f in findings:
         n = len(by_sig.get(f.sig, []))
         out_lines.append(f'KNOWN-FINDING: property={prop} sig={f.sig} {f.text} [cases matching in this run: {n}]')
+    dump_known = os.environ.get('VERIF_DUMP_KNOWN')
+    if dump_known:
+        # exemplar replay file for every known finding matched in this run (tools/make_regressions.sh)
+        os.makedirs(os.path.join(dump_known, prop), exist_ok=True)
+        for s_ in by_sig:
+            if s_ in known:
+                v_ = min(by_sig[s_], key=lambda x: len(repr(x['case'])))
+                with open(os.path.join(dump_known, prop, hashlib.sha1(s_.encode()).hexdigest()[:12] + '.json'), 'w', encoding='utf-8') as fh:
+                    json.dump({'property': prop, 'sig': s_, 'what': _jsonable(v_['what']), 'case': _jsonable(v_['case'], None), 'expect': 'violation (known finding)'}, fh, indent=1, ensure_ascii=True)
     replay_dir = os.path.join(os.environ.get('VERIF_REPLAY_DIR') or os.path.join(HOME, 'replay'), prop)
     confirmed = 0
     unconfirmed: List[str] = []
